@@ -13,10 +13,10 @@ import (
 // C01 — diff then apply reproduces the new build (DESIGN §5 C01).
 
 type c01Spec struct {
-	PairSeed   uint64       `json:"pairSeed"`
-	Opts       lib.GenOpts  `json:"opts"`
-	Comps      []lib.Comp   `json:"comps"`
-	ShortReads bool         `json:"shortReads"`
+	PairSeed   uint64      `json:"pairSeed"`
+	Opts       lib.GenOpts `json:"opts"`
+	Comps      []lib.Comp  `json:"comps"`
+	ShortReads bool        `json:"shortReads"`
 }
 
 func genOptsFor(r *lib.Rng, i int, bigEvery int) lib.GenOpts {
@@ -215,9 +215,9 @@ func diffKinds(ds []lib.TreeDiff) string {
 
 func init() {
 	lib.Register(&lib.Property{
-		ID:    "C01",
-		Level: "exploration",
-		Rule: "pairs drawn by the build-pair generator (boundary sizes, content classes, file/tree relations, kind swaps); each pair diffed with the real ComputeSignature+WritePatch under 3 compression settings (round robin over all 25) and applied with patcher+fresh bowl into an empty directory; oracle = independent tree comparison + independent decode of the patch against the framing grammar. distinct = distinct (relation-set signature, compression setting) among pairs with at least one relation other than 'unchanged'",
+		ID:          "C01",
+		Level:       "exploration",
+		Rule:        "pairs drawn by the build-pair generator (boundary sizes, content classes, file/tree relations, kind swaps); each pair diffed with the real ComputeSignature+WritePatch under 3 compression settings (round robin over all 25) and applied with patcher+fresh bowl into an empty directory; oracle = independent tree comparison + independent decode of the patch against the framing grammar. distinct = distinct (relation-set signature, compression setting) among pairs with at least one relation other than 'unchanged'",
 		Assumptions: []string{"protobuf runtime and generated message types are shared with wharf", "tlc.WalkAny is used to build containers (cross-checked against an independent walk)", "case-sensitive Linux file system"},
 		Flavors: func(tier string) []string {
 			if tier == "thorough" {
